@@ -236,19 +236,24 @@ def render_stmt(s, ind="  "):
             txt += " = " + _init_text(s[3])
         return f"{ind}{txt};\n"
     if k == "if":
-        r = f"{ind}if ({render_expr(s[1])})\n" + render_stmt(_blk(s[2]), ind)
+        # a then-branch that could capture the else (dangling else) is braced; every other sub-statement is rendered
+        # as written in the AST: a "block" with braces, anything else as a bare statement
+        then = s[2]
+        if s[3] is not None and then[0] not in ("expr", "return", "break", "continue", "block"):
+            then = _blk(then)
+        r = f"{ind}if ({render_expr(s[1])})\n" + _sub(then, ind)
         if s[3] is not None:
-            r += f"{ind}else\n" + render_stmt(_blk(s[3]), ind)
+            r += f"{ind}else\n" + _sub(s[3], ind)
         return r
     if k == "while":
-        return f"{ind}while ({render_expr(s[1])})\n" + render_stmt(_blk(s[2]), ind)
+        return f"{ind}while ({render_expr(s[1])})\n" + _sub(s[2], ind)
     if k == "do":
-        return f"{ind}do\n" + render_stmt(_blk(s[1]), ind) + f"{ind}while ({render_expr(s[2])});\n"
+        return f"{ind}do\n" + _sub(s[1], ind) + f"{ind}while ({render_expr(s[2])});\n"
     if k == "for":
         init = render_stmt(s[1], "").strip() if s[1] is not None else ";"
         c = render_expr(s[2]) if s[2] is not None else ""
         p = render_expr(s[3]) if s[3] is not None else ""
-        return f"{ind}for ({init} {c}; {p})\n" + render_stmt(_blk(s[4]), ind)
+        return f"{ind}for ({init} {c}; {p})\n" + _sub(s[4], ind)
     if k == "break":
         return f"{ind}break;\n"
     if k == "continue":
@@ -273,6 +278,15 @@ def render_stmt(s, ind="  "):
 
 def _blk(s):
     return s if s[0] == "block" else ["block", [s]]
+
+
+def _sub(s, ind):
+    """sub-statement of if / while / do / for: braces only where the AST has a block"""
+    if s[0] == "block":
+        return render_stmt(s, ind)
+    if s[0] == "decl":
+        raise Unsupported("a declaration is not a statement (must be inside a block)")
+    return render_stmt(s, ind + "  ")
 
 
 def _ginit_text(init):
@@ -674,14 +688,22 @@ class CSem:
         return z3.Not(z3.Or(*self.ub)) if self.ub else z3.BoolVal(True)
 
     # -- memory -----------------------------------------------------------------------------------
-    def _off_const(self, off):
+    def _off_const(self, off, obj=None, size=1, align=1):
+        """concrete byte offset of an access.  A symbolic offset is DECIDED against every in-bounds, aligned
+        candidate (forks through the engine: one path per feasible element), which keeps the memory terms of both
+        compared semantics free of if-then-else chains / array reasoning; None = no candidate matches on this
+        path (the access is out of bounds: undefined)"""
         if isinstance(off, int):
             return off
         s = z3.simplify(off)
         if z3.is_bv_value(s):
-            v = s.as_long()
-            return v
-        return None
+            return s.as_long()
+        if obj is None or core.ENG is None:
+            return None
+        for k in self._cands(obj, off, size, align):
+            if _decide(s == z3.BitVecVal(k, s.size())):
+                return k
+        return -1
 
     def _cands(self, obj, off, size, align):
         return [k for k in range(0, obj.size - size + 1) if k % align == 0]
@@ -691,7 +713,7 @@ class CSem:
         if obj is None:
             self._ub(True)
             return [z3.BitVecVal(0, 8)] * size
-        c = self._off_const(off)
+        c = self._off_const(off, obj, size, align)
         if c is not None:
             if c < 0 or c + size > obj.size:
                 self._ub(True)
@@ -720,7 +742,7 @@ class CSem:
         if obj is None:
             self._ub(True)
             return
-        c = self._off_const(off)
+        c = self._off_const(off, obj, size, align)
         if c is not None:
             if c < 0 or c + size > obj.size:
                 self._ub(True)
